@@ -19,6 +19,7 @@ limitations under the License.
 package server
 
 import (
+	"k8s.io/apimachinery/pkg/runtime"
 	"k8s.io/pod-security-admission/admission"
 )
 
@@ -31,3 +32,8 @@ func VerifNewServer(delegate *admission.Admission) *Server {
 
 // VerifMaxRequestSize is the request body limit enforced by HandleValidate.
 const VerifMaxRequestSize = maxRequestSize
+
+// VerifDeserializer is the decoder HandleValidate hands to api.RequestAttributes.
+func VerifDeserializer() runtime.Decoder {
+	return codecs.UniversalDeserializer()
+}
